@@ -7,6 +7,7 @@ mod config;
 mod node;
 
 mod cluster;
+mod comp_mempool;
 mod comp_pure;
 mod comp_sender;
 mod comp_store;
@@ -61,6 +62,7 @@ fn main() {
         match workload.as_str() {
             "cluster" => scen_cluster::run(&class, seed, &params).print(),
             "puppet" => scen_puppet::run(&class, seed, &params).print(),
+            "c11" | "c12" => comp_mempool::run(&workload, &class, seed, &params).print(),
             "c14" => comp_sender::run(&class, seed, &params).print(),
             "c16" => comp_store::run(&class, seed, &params).print(),
             "c17" | "c18" | "c20" | "c09" | "c19" | "c04" => comp_pure::run(&workload, &class, seed, &params).print(),
